@@ -9,6 +9,7 @@ import (
 	"math/big"
 	"slices"
 	"sort"
+	"strings"
 	"sync"
 
 	"github.com/creachadair/mds/stree"
@@ -1056,10 +1057,13 @@ func (r *treeRun[T]) apply(op Op) string {
 			return r.checkHeldCursor(in, k, op.A*401+op.B)
 		}
 		return ""
-	case "asc", "desc", "zig", "ascL", "descL":
+	case "asc", "desc", "zig", "ascL", "descL", "combA", "combD", "combAL", "combDL":
+		// comb: a monotone spine whose every node gets a single leaf as its other
+		// child (new extreme two units out, then the key between it and the old
+		// extreme): siblings of size one high up on the insertion path
 		n := op.A%40 + 1
 		kind := op.Kind
-		if kind == "ascL" || kind == "descL" { // long monotone run: loose balance factors need hundreds of keys to show
+		if strings.HasSuffix(kind, "L") { // long monotone run: loose balance factors need hundreds of keys to show
 			n = op.A%1400 + 300
 			kind = kind[:len(kind)-1]
 		}
@@ -1074,6 +1078,14 @@ func (r *treeRun[T]) apply(op Op) string {
 			}
 			var k int64
 			switch {
+			case kind == "combA" && i%2 == 0:
+				k = hi + int64(2)<<keyShift
+			case kind == "combA":
+				k = hi - int64(1)<<keyShift
+			case kind == "combD" && i%2 == 0:
+				k = lo - int64(2)<<keyShift
+			case kind == "combD":
+				k = lo + int64(1)<<keyShift
 			case kind == "asc", kind == "zig" && i%2 == 0:
 				k = hi + int64(1)<<keyShift
 			default:
